@@ -105,6 +105,7 @@ def alignParaLeft (width : Int) (lineSep para pre suf : List α) : R (List α) :
   let sepStart := gRepeat [cx.sp] (gLen cx pre)
   let sepEnd := gRepeat [cx.sp] (gLen cx suf)
   let bl := Block.new (para ++ sepEnd) lineSep
+  if bl.lines.isEmpty then return bl.join
   let endIdx : Int := (bl.lines.length : Int) - 1
   let bl ← bl.set 0 ((← bl.line 0) ++ sepStart)
   let bl ← bl.mapLinesM fun _ l => pure (alignLeft cx l width)
@@ -117,6 +118,7 @@ def alignParaRight (width : Int) (lineSep para pre suf : List α) : R (List α) 
   let sepStart := gRepeat [cx.sp] (gLen cx pre)
   let sepEnd := gRepeat [cx.sp] (gLen cx suf)
   let bl := Block.new (sepStart ++ para) lineSep
+  if bl.lines.isEmpty then return bl.join
   let endIdx : Int := (bl.lines.length : Int) - 1
   let bl ← bl.set endIdx (sepEnd ++ (← bl.line endIdx))
   let bl ← bl.mapLinesM fun _ l => pure (alignRight cx l width)
@@ -135,6 +137,7 @@ def alignParaCenter (width : Int) (lineSep para pre suf : List α) : R (List α)
   let sepStart := gRepeat [cx.sp] (gLen cx pre)
   let sepEnd := gRepeat [cx.sp] (gLen cx suf)
   let bl := Block.new para lineSep
+  if bl.lines.isEmpty then return bl.join
   let bl ← bl.mapLinesM fun _ l => pure (alignCenter cx l width)
   let ss : Int := gLen cx sepStart
   let se : Int := gLen cx sepEnd
@@ -265,19 +268,16 @@ def Editor.justifyOpts (ed : Editor α) (width : Int) (o : Options α) : R (Edit
     let ed ← ed.applyOptsM cx (fun _ line => do pure [← justifyLine cx line width]) o
     if !o.justifyLast then ed.commit cx else pure ed
 
-/-- length of a definitions-table term as the source measures it: `len([]rune(term))` -/
-def termLen (t : List α) : Int := t.length
-
 /-- Editor.InsertDefinitionsTableOpts -/
 def Editor.insertDefTableOpts (ed : Editor α) (pos : Int) (defs : List (List α × List α))
     (width : Int) (o : Options α) : R (Editor α) := do
   let o := o.withDefaults cx
-  let longest : Int := defs.foldl (fun m d => if termLen d.1 > m then termLen d.1 else m) (-1)
+  let longest : Int := defs.foldl (fun m d => if (gLen cx d.1 : Int) > m then (gLen cx d.1 : Int) else m) (-1)
   let leftWidth := longest + 2
   let rightWidth := width - leftWidth - 2
   let full ← defs.foldlM (fun (full : List (List α)) (item : List α × List α) => do
     let term := item.1
-    let pad ← if termLen term < longest then repeatStr [cx.sp] (longest - termLen term) else pure []
+    let pad ← if (gLen cx term : Int) < longest then repeatStr [cx.sp] (longest - (gLen cx term : Int)) else pure []
     let leftCol := [[cx.sp, cx.sp] ++ term ++ pad]
     let rc ← wrapLines cx item.2 (rightWidth - 2) o.lineSep
     let rightCol := (List.range rc.length).map fun i =>
@@ -338,6 +338,7 @@ def Editor.insertTwoColumnsOpts (ed : Editor α) (pos : Int) (leftText rightText
     let avail := width - minSpaceBetween
     let leftW : Int := mulRoundTrunc avail.toNat num exp
     let leftW := if leftW < 2 then 2 else leftW
+    let leftW := if leftW > avail - 2 then avail - 2 else leftW
     let rightW := avail - leftW
     if rightW < 2 then throw .explicit
     else
